@@ -3843,8 +3843,13 @@ impl KotoVm {
         let previous_frame_base = self.register_base;
         let new_frame_base = previous_frame_base + frame_base as usize;
 
-        self.call_stack
-            .push(Frame::new(chunk.clone(), non_locals, new_frame_base));
+        self.call_stack.push(Frame::new(
+            chunk.clone(),
+            non_locals,
+            new_frame_base,
+            self.sequence_builders.len(),
+            self.string_builders.len(),
+        ));
         self.register_base = new_frame_base;
         self.set_chunk_and_ip(chunk, ip);
     }
@@ -3859,6 +3864,11 @@ impl KotoVm {
         let Some(popped_frame) = self.call_stack.pop() else {
             return runtime_error!(ErrorKind::EmptyCallStack);
         };
+
+        // Discard any sequences or strings that the frame left under construction
+        self.sequence_builders
+            .truncate(popped_frame.sequence_builders);
+        self.string_builders.truncate(popped_frame.string_builders);
 
         if self.call_stack.is_empty() {
             // The call stack is empty, so clean up by resetting the register base.
@@ -4226,14 +4236,27 @@ struct Frame {
     //   - an external function is calling back into the VM with a functor
     //   - a module is being imported
     pub execution_barrier: bool,
+    // The number of sequences and strings that were under construction when the frame was entered.
+    // A frame can be left while it's in the middle of building a sequence or string
+    // (e.g. `[1, (return 2)]`), anything that it leaves behind is discarded when it's popped.
+    pub sequence_builders: usize,
+    pub string_builders: usize,
 }
 
 impl Frame {
-    fn new(chunk: Ptr<Chunk>, non_locals: Option<NonLocals>, register_base: usize) -> Self {
+    fn new(
+        chunk: Ptr<Chunk>,
+        non_locals: Option<NonLocals>,
+        register_base: usize,
+        sequence_builders: usize,
+        string_builders: usize,
+    ) -> Self {
         Self {
             chunk,
             non_locals,
             register_base,
+            sequence_builders,
+            string_builders,
             required_registers: 0,
             return_resume_ip: 0,
             return_value_register: None,
